@@ -7,6 +7,8 @@ USES_GEN = True
 READY = True
 LEAN_PROPS = "Dashu.Props.C07"
 LEAN_AUDIT = "Dashu.Audit.C07"
+GEN_PROPS = ["Dashu.Props.C07Debug"]      # round 5: Debug (DoubleEnd) mirrored on words, composed with C02 / C09 / C10 kernels
+GEN_AUDIT = ["Dashu.Audit.C07Debug"]
 JOBS = 14
 
 W = 64
@@ -86,6 +88,19 @@ def digit_lengths(r, tier, big=True):
 FLAGS = ["-", "+", "#", "0", "+#", "+0", "#0", "+#0"]
 TRAITS = ["d", "b", "o", "x", "X"]
 TRAIT_RADIX = {"d": 10, "b": 2, "o": 8, "x": 16, "X": 16}
+
+
+# E1 (ROUND4 addendum): extreme values of the `u32` radix parameters and of the `usize` chunk_bits parameter
+RADIX_EXTREMES = [38, 63, 64, 65, 127, 128, 129, 255, 256, (1 << 31) - 1, 1 << 31, (1 << 31) + 1, (1 << 32) - 2, (1 << 32) - 1] + \
+                 [(1 << 32) - 1 - k for k in (35, 36, 37, 64, 130)]
+USIZE_MAX = (1 << 64) - 1
+
+
+def usize_extremes(rng, tier):
+    ks = [1, 63, 64, 65, 128, 1 << 31, (1 << 32) - 1, 1 << 32, (1 << 32) + rng.randrange(1, 130), (1 << 32) + 64, 1 << 63,
+          (1 << 63) + rng.randrange(1, 130)]
+    js = range(0, 131) if tier == "thorough" else [0, 1, 2, 62, 63, 64, 65, 126, 127, 128, 129, 130, rng.randrange(3, 62), rng.randrange(66, 126)]
+    return ks + [USIZE_MAX - j for j in js]
 
 
 def radices(rng, tier):
@@ -287,6 +302,19 @@ def gen_fmt(rng, tier):
         dvals += [10 ** k - 1, 10 ** k, 10 ** k + 1, 10 ** k + 10 ** (k // 2), 2 * 10 ** k - 1, 10 ** k - 10 ** (k - 19), 10 ** k + 10 ** 19 - 1]
     for _ in range(40 if tier == "quick" else 3000):
         dvals.append(nat_pattern(rng, rng.choice([2, 3, 3, 4, 5, 16, 17, 40]), rng.choice(PATTERNS)))
+    # 5c'. (round 5, the mirrored heap arm) 10^e, 10^e +- 1 for EVERY e of a range (log_word_base: Equal / Less / Greater exits;
+    #      the power 10^(e+1-19) of every word length and every top-word size, so that the normalising shift takes every value and
+    #      `words_top == 0` / `!= 0` both occur), head digits 1000.. / 9999.. (quotient at both ends of [10^18, 10^19)), values just
+    #      below / at / above a word-count boundary 2^(64 j) (shl_in_place overflow word), tail 0 / 10^19 - 1
+    for e in (range(39, 140) if tier == "quick" else range(39, 700)):
+        p10 = 10 ** e
+        dvals += [p10, p10 - 1, p10 + 1]
+        if tier == "thorough" or e % 7 == 0:
+            dvals += [p10 + rng.getrandbits(60), 10 * p10 - 10 ** 19, 10 * p10 - 10 ** 19 - 1, p10 * rng.randrange(1, 10) + rng.getrandbits(64)]
+    for j in (range(2, 24) if tier == "quick" else range(2, 80)):
+        b = 1 << (64 * j)
+        dvals += [b - 1, b, b + 1, (b << 63), (b << 63) - 1, (b >> 1), b + (10 ** 19 - 1)]
+    dvals = [v for v in dvals if v >= 0]
     for v in dvals:
         fl = rng.choice(["-", "-", "+", "#", "+#"])
         w = rng.choice(["none", "none", dec(0), dec(5), dec(60)])
@@ -294,10 +322,16 @@ def gen_fmt(rng, tier):
             yield Case("u.dbg", [fl, w, hx(v)], nontrivial=v >= (1 << 128))
         else:
             yield Case("i.dbg", [fl, w, hx(signed(rng, v))], nontrivial=v >= (1 << 128))
-    # 6. invalid radix
-    for r in [0, 1, 37, 100]:
+    # 6. invalid radix; E1: extreme u32 radices for in_radix (all panic InvalidRadix) and the largest widths core::fmt accepts (u16)
+    for r in [0, 1, 37, 100] + RADIX_EXTREMES:
         yield Case("u.fmt", ["r%d" % r, 0, "-", "none", "5"], nontrivial=False)
         yield Case("i.rt", ["-5", dec(r)], nontrivial=False)
+    for w in [65535, 65534, 32768, 4097]:
+        for fl in ["-", "0", "+#0"]:
+            t = rng.choice(TRAITS + ["r36", "r7"])
+            v = signed(rng, rng.getrandbits(rng.choice([8, 64, 130, 2000])))
+            yield Case("i.fmt", [t, rng.randrange(10), fl, dec(w), hx(v)], nontrivial=True)
+        yield Case("i.dbg", [rng.choice(["-", "+#"]), dec(w), hx(signed(rng, rng.getrandbits(200)))], nontrivial=True)
 
 
 def gen_parse(rng, tier):
@@ -412,6 +446,22 @@ def gen_parse(rng, tier):
         for bb in bad:
             yield Case(rng.choice(["u.parse", "i.parse"]), [sb(bb), dec(r)], nontrivial=False)
             yield Case(rng.choice(["u.parse", "i.parse"]), [sb(b"1_" + bb + b"_1"), dec(r)], nontrivial=False)
+    # 3c. EVERY byte 0x00..0x7f in the PREFIX-LETTER position `0?101` (b, o, x are prefixes for the prefix-aware entry points and
+    #     digits of radix 36 for from_str_radix; B, O, X and everything else are not prefixes), with and without sign
+    for b in range(0x80):
+        txt = b"0" + bytes([b]) + b"101"
+        sgn = rng.random() < 0.5
+        sign = (rng.choice(["", "+", "-"]) if sgn else rng.choice(["", "+"])).encode()
+        yield Case("i.parse_prefix" if sgn else "u.parse_prefix", [sb(sign + txt)], nontrivial=False)
+        yield Case("i.parse_default" if sgn else "u.parse_default", [sb(sign + txt), dec(rng.choice([2, 8, 10, 16, 36]))], nontrivial=False)
+        yield Case("i.parse" if sgn else "u.parse", [sb(sign + txt), dec(rng.choice([2, 16, 36, 34]))], nontrivial=False)
+        # and in the SIGN position (first byte) before a valid body
+        yield Case(rng.choice(["i.parse", "u.parse"]), [sb(bytes([b]) + b"11"), dec(rng.choice([2, 10, 36]))], nontrivial=False)
+        yield Case(rng.choice(["i.parse_prefix", "u.parse_prefix"]), [sb(bytes([b]) + b"0x11")], nontrivial=False)
+    # E1: extreme u32 radices (all UnsupportedRadix)
+    for r in RADIX_EXTREMES:
+        yield Case(rng.choice(["u.parse", "i.parse"]), [sb("1"), dec(r)], nontrivial=False)
+        yield Case(rng.choice(["u.parse_default", "i.parse_default"]), [sb(rng.choice(["1", "0x1", "-1", ""])), dec(r)], nontrivial=False)
     for r in [0, 1, 37, 1000]:
         yield Case("u.parse", [sb("1"), dec(r)], nontrivial=False)
         yield Case("i.parse", [sb("-1"), dec(r)], nontrivial=False)
@@ -503,6 +553,24 @@ def gen_chunks(rng, tier):
                 yield Case("u.chunks", [hx(n), dec(k)], nontrivial=nw >= 3)
                 if rng.random() < 0.3 and n:
                     yield Case("u.chunks", [hx(n >> rng.randrange(1, 64)), dec(k)], nontrivial=nw >= 3)
+    # E1: extreme chunk_bits.  Inline values: every extreme (the code never allocates there).  Heap values: the code allocates
+    # ceil(chunk_bits / 64) + 1 words PER CHUNK whatever the size of the number, so only chunk sizes are driven whose buffers are
+    # small (<= 2^20 bits) or are refused at once without touching memory (>= 2^63: `try to allocate too much memory` / `out of
+    # memory` — finding `to_chunks-huge-chunk-bits`); the sizes in between would really allocate chunk_bits / 8 bytes.
+    ext = usize_extremes(rng, tier)
+    for k in ext:
+        for n in [0, 1, (1 << 64) - 1, 1 << 64, (1 << 128) - 1, rng.getrandbits(rng.randrange(1, 129))]:
+            yield Case("u.chunks", [hx(n), dec(k)], nontrivial=False)
+        # from_chunks with ONE chunk: the shift is 0 for every chunk size
+        yield Case("u.from_chunks", [dec(k), hx(rng.getrandbits(rng.choice([1, 64, 65, 200])))], nontrivial=False)
+    heap = [1 << 128, (1 << 192) - 1, nat_pattern(rng, 5, "random") | (1 << 300)]
+    for k in [129, 193, 1 << 10, (1 << 16) + 1, 1 << 20, (1 << 20) + 63] + [x for x in ext if x >= (1 << 63)]:
+        for n in heap:
+            yield Case("u.chunks", [hx(n), dec(k)], nontrivial=True)
+    # two chunks far apart (result buffer of max_len + chunk_bits + 1 words)
+    for k in [1 << 10, (1 << 14) + 1, 1 << 16]:
+        yield Case("u.from_chunks", [dec(k), hx(rng.getrandbits(64)), hx(rng.getrandbits(70) | 1)], nontrivial=True)
+        yield Case("u.from_chunks", [dec(k), hx(rng.getrandbits(64)), "0", hx(1)], nontrivial=True)
     for _ in range(250 if tier == "quick" else 30000):
         k = rng.choice(CHUNK_SIZES + [2, 192, 256]) if rng.random() < 0.97 else 0
         cnt = rng.choice([0, 1, 2, 3, 5, 8, 12])
@@ -624,6 +692,11 @@ RULE = ("fmt: for each radix (quick: 2,8,10,16,36 + 5 drawn by rng; thorough: al
         "debug: {:?} / {:+?} / {:#?} with and without width on 0, word/dword boundaries, 10^k and 10^k +-1, 2*10^k-1, 10^k +- 10^(k-19) "
         "for k = 40..1233 (thorough: 39..120 and up to 20000), random heap values. "
         "chunks: sizes {0,1,2,7,8,63,64,65,127,128,129,192,200,256,320} x 0..8-word values; from_chunks with oversized chunks. "
+        "extremes (ROUND4 addendum E): u32 radices 38, 63..65, 127..129, 255, 256, 2^31+-1, 2^32-1-k through from_str_radix / from_str_with_radix_default / in_radix; "
+        "widths 65535, 65534, 32768, 4097 (the largest core::fmt accepts) for all traits and Debug; usize chunk_bits 1, 63..65, 128, 2^31, 2^32+-k, 2^63(+k), MAX-j (j = 0..130; "
+        "quick 14 of them) x inline values, x heap values for sizes <= 2^20 and >= 2^63, from_chunks with one chunk for every extreme size; every byte 0x00..0x7f in the "
+        "prefix-letter position `0?101` and in the sign position through all entry points; Debug: 10^e, 10^e+-1 for every e = 39..139 (thorough ..699), head digits 100../99.., "
+        "values around 2^(64j) and 2^(64j+63) for every j = 2..23 (thorough ..79). "
         "Non-trivial := more digits than one word holds / a padding width above the text length / heap values; distinct := distinct case lines.")
 
 REFINED = [
@@ -672,16 +745,41 @@ REFINED = [
     "chunks_exact_mut, SWAR per chunk, first buffer_len bytes out): invariant buffer_len < BUFFER_LEN, rounded <= BUFFER_LEN, all pending bytes "
     "raw digits; output = per-byte conversion of the concatenated writes (digit_writer_write_invariant, digit_writer_swar_sound); the driver "
     "prints through it (print_on_mirrored_low_layer: = fmtModel = the reference text)",
+    "the SEQUENCE of DigitWriter::write calls of every printer (Model/Text/Pieces.lean: PreparedWord/PreparedDword one call, PreparedMedium top group + "
+    "one call per low group, PreparedLarge through write_big_chunk -> write_chunk CHUNK_LEN calls, power-of-two heap printer one call per digit), "
+    "number-level and on the mirrored reciprocal division: concatenation = the digit string, every non-first call of a non-power-of-two printer carries "
+    "exactly digits_per_word digits; the driver feeds exactly these pieces to the mirrored DigitWriter (write_pieces_recorded, write_pieces_shape, "
+    "print_on_recorded_pieces)",
+    "Debug (`{:?}` / `{:+?}` / `{:#?}`, DoubleEnd::fmt_non_power_two + format_prepared of fmt/mod.rs, non_power_two.rs) mirrored in Model/Text/Debug.lean: inline "
+    "word / double word (word-level split), heap arm ON WORDS with the kernels of their owners — rem_by_word, div_by_word_in_place, normalize, "
+    "div_rem_highest_word (C02 models + specs), shl_in_place (C09), log_word_base (C10/C12 model + spec; the f32 first guess is a parameter) — every "
+    "debug_assert! an error branch: no assertion or kernel precondition fails, the dividend window is exactly one word longer than the divisor, head = "
+    "n / 10^(exp+1-dpw), tail = n % 10^dpw, exp+1 = number of decimal digits; the text is sign + first dpw digits + `..` + last dpw digits (never "
+    "overlapping) + the (digits, bits) suffix; every integer, every even W >= 8 (Props/C07Debug: debug_head_tail_on_words, debug_text, debug_text_est_one, "
+    "debug_head_tail_true_digits); ops u.dbg / i.dbg run the mirrored model, spec = closed form debugSpec (also compared with C08's debugInt)",
+    "to_chunks / from_chunks mutually inverse IN BOTH DIRECTIONS on words for every chunk size k >= 1, word-aligned shortcut included: from(to(n)) = n for every n, "
+    "to(from(cs)) = cs for every canonical chunk list (chunks_inverse); unsigned bytes likewise (ubig_bytes_inverse_canonical)",
+    "Tie A: radix::digit_from_ascii_byte (three byte ranges, offsets, `res < radix`), is_radix_valid, MIN_RADIX, MAX_RADIX regenerated from radix.rs on every run "
+    "(Dashu/Gen/TextDigit.lean); the hand model of the grammar theorems (digitOf, validRadix) equals the regenerated text for every byte and radix "
+    "(digit_table_regenerated)",
 ]
 FRONTIER = [
     "TypedRepr div_rem / sqr / pow / mul of the divide-and-conquer tower and mul_word_in_place_with_carry / UBig * and + of the parsers: "
-    "C01/C02 kernels (ubig_div_rem_exact, mul theorems); Nat arithmetic here",
-    "shift::shr_in_place / shl_in_place / add_in_place inside the chunk routines are builder-div's / C01's mirrored models with their proved specs (reused)",
-    "big-endian byte functions modelled as mirror images (list reversal) of the little-endian ones",
-    "Debug (`{:?}`, DoubleEnd: head..tail decimal digits via log_word_base / div_rem_highest_word / rem_by_word) is driven against the "
-    "closed-form text of Model/Text/Float.lean debugInt (correspondence only, no theorem: not part of the property's clauses)",
-    "which pieces the printers hand to DigitWriter::write is not recorded by the number-level model (the driver cuts the digit string into "
-    "digits_per_word pieces); digit_writer_swar_sound holds for every sequence of writes",
+    "C01/C02 kernels (ubig_div_rem_exact, mul theorems); Nat arithmetic here (linked by name, not by an imported theorem: the printers' and parsers' "
+    "theorems hold for exact arithmetic, which is what those kernels are proved to compute)",
+    "shift::shr_in_place / shl_in_place / add_in_place inside the chunk routines, rem_by_word / div_by_word_in_place / normalize / div_rem_highest_word / "
+    "log_word_base inside Debug are builder-div's / C01's / C10's mirrored models with their proved specs, imported and composed (Props/C07Debug, chunks_model)",
+    "big-endian byte functions (words_to_be_bytes, from_be_bytes_large with rchunks_exact, dword_from_be_bytes_partial: separate code in convert.rs) are modelled as "
+    "mirror images (list reversal) of the little-endian ones; kept: the tie is the correspondence run (every length 0..40 x top byte x body, both directions)",
+    "padIntegral (Model/Text/Spec.lean) is a hand transcription of core::fmt::Formatter::pad_integral — Rust's standard library is outside /repo, so no theorem "
+    "can tie it; the harness compares every flag combination with Rust's primitive integer formatting on values < 2^128 (`prim-disagree`)",
+    "two's complement bytes: decode(encode(z)) = z is proved for every integer; the converse (encode(decode(b)) = b) only holds for minimal-length encodings and "
+    "is stated for the unsigned functions only (ubig_bytes_inverse_canonical)",
+    "log_word_base's f32 first guess is a parameter `est` of the Debug model (theorems hold for every est passing the function's own assert!; that the real "
+    "estimate passes it is C10's clause); the two DigitWriters of DoubleEnd::format_prepared receive one piece each and are modelled by the per-byte conversion "
+    "(equal by digit_writer_swar_sound)",
+    "to_chunks on heap values with chunk_bits in (2^20, 2^63) is not driven: the implementation allocates chunk_bits/8 bytes per chunk there (finding "
+    "to_chunks-huge-chunk-bits covers >= 2^63); from_chunks with two or more chunks is driven for chunk_bits <= 2^16 only (its result buffer has (len-1)*chunk_bits words)",
 ]
 THEOREMS = ["Dashu.Props.C07." + t for t in [
     "positional_representation", "radix_table", "print_non_pow2_digits", "print_size_classes", "big_chunk_padded",
@@ -691,13 +789,16 @@ THEOREMS = ["Dashu.Props.C07." + t for t in [
     "print_prefix_parse_round_trip", "parse_underscores_ignored",
     "medium_on_words", "write_chunk_on_words", "dword_split_on_words",
     "fast_divide_small_exact", "swar_digit_chunk", "low_layer_constants_regenerated", "digit_writer_swar_sound",
-    "digit_writer_write_invariant", "print_on_mirrored_low_layer", "raw_digits_on_mirrored_division"]]
+    "digit_writer_write_invariant", "print_on_mirrored_low_layer", "raw_digits_on_mirrored_division",
+    "write_pieces_recorded", "write_pieces_shape", "print_on_recorded_pieces", "chunks_inverse", "digit_table_regenerated", "chunk_spec_guards", "ubig_bytes_inverse_canonical"]] + [
+    "Dashu.Props.C07Debug." + t for t in ["debug_head_tail_on_words", "debug_text", "debug_text_est_one", "debug_head_tail_true_digits"]]
 EXPLANATION = ("Lean theorems for every word size, radix 2..36 and integer: the printing model (all size classes of both printers) "
                "produces exactly the positional digits; the parsing model equals the documented grammar as a total function on byte "
                "strings (errors included) and parse(print) is the identity in both letter cases; format_prepared equals the "
                "pad_integral specification; the word-level byte encoders/decoders equal the positional / two's complement specification and "
-               "are mutually inverse; chunk encodings have round-trip theorems at the specification level (word-level chunk code tied by the "
-               "correspondence run only). "
+               "are mutually inverse; the word-level chunk routines equal the base-2^k digits and are mutually inverse in both directions for every "
+               "chunk size; Debug ({:?}) prints the true leading and trailing decimal digits (mirrored on words, composed with the division / shift / "
+               "logarithm kernels of C02 / C09 / C10 through their proved specifications). "
                "Model and code are run side by side on structured inputs; the harness additionally compares every flag "
                "combination with Rust's primitive formatting.")
 ASSUMPTIONS = ["frontier kernels (multi-word division/multiplication of the divide-and-conquer "
@@ -717,13 +818,16 @@ LEVEL_TEXT = ("Machine-checked Lean 4 theorems about an executable model of dash
               "on machine words and is what the driver executes: the multiply-shift reciprocal division by the radix (FastDivideSmall = "
               "num-modular PreMulInv1by1) is exact for every divisor 2 <= d < 2^W and every word, the SWAR digit->ASCII routine equals the "
               "per-byte conversion on all lanes for all digits < 36 with no Word overflow, and the buffered DigitWriter with its real flush "
-              "delivers exactly the converted digits for any sequence of writes. "
+              "delivers exactly the converted digits for any sequence of writes — and the sequence of writes each printer really makes is recorded and is "
+              "what the driver feeds to it; Debug ({:?}) is mirrored on words and proved to print the sign, the first and the last digits_per_word decimal "
+              "digits and the digit / bit counts; the digit table of the parsers is regenerated from the source and proved equal to the model's. "
               "The hand-written model is tied to /repo on every run by differential "
               "execution (model vs real code) over all thresholds of both converters and a malformed-text stream, plus a direct "
               "comparison of all flag combinations with Rust's primitive integer formatting.")
 LEVEL_NOTE = ("Trusted: Lean kernel; axioms propext/Classical.choice/Quot.sound; the correspondence harness and generators (sampling) "
               "for the tie model<->code; division/multiplication kernels used inside the converters are exact arithmetic in the model "
               "(frontier, see evidence). Constants of the SWAR routine, DigitCase, the DigitWriter buffer, both CHUNK_LENs and the tower-loop test "
-              "are regenerated from the source text on every run (Tie A). Debug (`{:?}`) output is compared with a closed-form text only. Five defects found by this check "
-              "were repaired in /repo (`fixed:` lines of known_findings.jsonl); model and theorems describe the repaired code.")
+              "and the parsers' digit table (digit_from_ascii_byte, is_radix_valid) are regenerated from the source text on every run (Tie A). Five defects found by this check "
+              "were repaired in /repo (`fixed:` lines of known_findings.jsonl); model and theorems describe the repaired code. One open finding: to_chunks on a heap value "
+              "with chunk_bits >= 2^63 panics (allocation sized from chunk_bits) instead of returning the number as a single chunk.")
 TECHNIQUE = "Lean 4 refinement proofs (positional-representation algebra, induction over digit/word lists, all W) + differential correspondence model vs real code + comparison with Rust primitive formatting"
